@@ -48,9 +48,9 @@ X, Y, K, V = "?x", "?y", "k", "?v"
 
 
 class Family:
-    def __init__(self, name, const, f="f", h="h", third=False):
+    def __init__(self, name, const, f="f", h="h", third=False, objects=None):
         self.name, self.const, self.f, self.h = name, const, f, h
-        self.objects = [("o1", "t"), ("o2", "u")] + ([("o3", "t")] if third else [])
+        self.objects = list(objects) if objects is not None else [("o1", "t"), ("o2", "u")] + ([("o3", "t")] if third else [])
         self.consts = [(K, "u")] if const else []
         self.universe = self.objects + self.consts
         names = [n for n, _ in self.universe]
@@ -80,7 +80,10 @@ class Family:
                    ["forall", [V, "-", "u"], ["and", ["p", V]]],
                    ["forall", [V, "-", "t"], ["or", ["not", ["q", V]], ["r", X, V]]],
                    ["forall", [V, "-", "t"], ["and", [">=", [F, V], "1"]]],
-                   ["forall", [V, "-", "u"], ["or", ["r", V, Y], ["not", ["p", V]]]]]
+                   ["forall", [V, "-", "u"], ["or", ["r", V, Y], ["not", ["p", V]]]],
+                   # the quantified variable has the name of the action's parameter ?y: inside the body ?y is the bound variable
+                   ["forall", [Y, "-", "t"], ["and", ["q", Y]]],
+                   ["forall", [Y, "-", "u"], ["or", ["not", ["p", Y]], ["r", X, Y]]]]
         return lits + eqs + cmps + foralls
 
 
@@ -116,6 +119,8 @@ BUDGET = {  # (leaves, two-leaf formulas, size-3 formulas, calls per formula, st
     ("thorough", "F3const"): (None, 120, 60, 5, 64),
     ("thorough", "F3obj"): (None, 100, 50, 5, 64),
     ("thorough", "F2clash"): (None, 150, 60, None, 64),
+    ("thorough", "F2const"): (None, None, 100, None, 64),
+    ("quick", "F2const"): (10, 20, 8, 2, 32),
     ("quick", "F2"): (10, 30, 12, 2, 32),
     ("quick", "F3const"): (8, 14, 6, 2, 32),
     ("quick", "F2clash"): (8, 14, 6, 2, 32),
@@ -163,7 +168,8 @@ def formulas(fam, rng, tier):
 
 
 def scope_jobs(rng, tier):
-    fams = [Family("F2", False), Family("F3const", True), Family("F2clash", False, f="q", h="z"),
+    fams = [Family("F2", False), Family("F3const", True), Family("F2const", True, objects=[("o1", "t")]),
+            Family("F2clash", False, f="q", h="z"),
             Family("F3obj", False, third=True)] + [BoundFamily(m, tier == "quick") for m in ("1", "0.001", "1000", "10")]
     jobs = []
     exhaustive = {}
@@ -289,8 +295,76 @@ def gen_world_t(rng, max_actions=2):
         w.preds.append(("p9", [("?a%d" % k, rng.choice(ts)) for k in range(3)]))
         w.features.add("ternary-predicate")
     for i in range(rng.randint(1, max_actions)):
-        w.actions.append(G.gen_action(rng, w, i))
+        a = G.gen_action(rng, w, i)
+        if rng.random() < 0.25:
+            plant_forall(rng, w, a)
+        shadow_foralls(rng, w, a)
+        w.actions.append(a)
+    constant_of_quantified_type(rng, w)
     return w
+
+
+def rename_tree(t, old, new):
+    if isinstance(t, str):
+        return new if t == old else t
+    return [rename_tree(x, old, new) for x in t]
+
+
+def shadow_foralls(rng, w, a):
+    """round 3 (seeded/C02_A): the variable of a universal CONDITION gets the name of a (new) parameter of the action, so that the
+    quantifier shadows the parameter: inside the body the name is the bound variable, whatever the call binds the parameter to"""
+    def visit(t):
+        if isinstance(t, list) and t and t[0] == "forall" and len(t) == 3 and isinstance(t[2], list) and t[2] and t[2][0] != "when":
+            if rng.random() < 0.7:
+                newp = "?s%d" % len(a["params"])
+                a["params"] = a["params"] + [(newp, rng.choice(["object", "object", rng.choice(w.all_types())]))]
+                w.features.add("forall-shadows-parameter")
+                return ["forall", [newp, "-", t[1][2]], rename_tree(t[2], t[1][0], newp)]
+            return t
+        if isinstance(t, list):
+            return [visit(x) for x in t]
+        return t
+    a["pre"] = visit(a["pre"])
+    a["eff"] = visit(a["eff"])
+
+
+def quantified_types(t, acc):
+    if isinstance(t, list):
+        if t and t[0] == "forall" and len(t) == 3 and isinstance(t[1], list) and len(t[1]) == 3:
+            acc.add(t[1][2])
+        for x in t:
+            quantified_types(x, acc)
+    return acc
+
+
+def plant_forall(rng, w, a):
+    """one more universal conjunct (pddlgen makes them in about a fifth of the worlds)"""
+    ty = rng.choice(w.all_types())
+    v = "?qa"
+    body = [x for x in (G.gen_form(rng, w, list(a["params"]) + [(v, ty)], 1, True, True) for _ in range(rng.randint(1, 2))) if x]
+    if not body:
+        return
+    pre = a["pre"]
+    if not (isinstance(pre, list) and pre and pre[0] == "and"):
+        pre = ["and"] + ([pre] if pre else [])
+    a["pre"] = pre + [["forall", [v, "-", ty], [rng.choice(["and", "or"])] + body]]
+    w.features.add("forall-pre")
+
+
+def constant_of_quantified_type(rng, w):
+    """round 3 (D30 = 77a5e53): quantified conditions and effects range over the domain's CONSTANTS too; make sure that most worlds
+    with a quantifier have a constant its type admits"""
+    qts = set()
+    for a in w.actions:
+        quantified_types(a["pre"], qts)
+        quantified_types(a["eff"], qts)
+    if not qts:
+        return
+    if not any(w.is_sub(ct, qt) for _, ct in w.consts for qt in qts) and rng.random() < 0.75:
+        qt = rng.choice(sorted(qts))
+        w.consts.append(("cq%d" % len(w.consts), rng.choice([t for t in w.all_types() if w.is_sub(t, qt)])))
+    if any(w.is_sub(ct, qt) for _, ct in w.consts for qt in qts):
+        w.features.add("constant-of-quantified-type")
 
 
 def near_boundary_state(rng, st):
@@ -323,11 +397,35 @@ def build_world_b(rng, w, n_states, calls_per_action, name="dom"):
             "features": sorted(w.features), "tree": w.domain_tree(name)}
 
 
+def build_alias_b(rng, n_states, calls_per_action):
+    """round 3 (seeded/C20_C, the half that changes applicability): c20's worlds in which two different schema literals ground to the
+    same atom (one object bound to two parameters of related types, or to a parameter and written as a constant), at the top level and
+    inside nested groups; with states"""
+    from . import c20
+    aw, plans = c20.gen_alias_world(rng)
+    constant_of_quantified_type(rng, aw)
+    wd = c20.build_alias(rng, aw, plans, calls_per_action, noise=True)
+    objs = [tuple(o) for o in wd["objects"]]
+    by_action = {a["name"]: a for a in aw.actions}
+    probes = []
+    for k in range(n_states):
+        st = G.gen_state(rng, aw, objs, density=rng.choice([0.5, 0.8]))
+        ptxt = G.problem_text(aw, objs, st, domain="dom")
+        for pr in wd["probes"]:
+            nwhen, nuniv = count_groups(by_action[pr["action"]])
+            probes.append({"action": pr["action"], "args": pr["args"], "state": st, "problem_text": ptxt,
+                           "perm_seed": 0, "nwhen": nwhen, "nuniv": nuniv})
+    return {"domain_text": wd["domain_text"], "objects": objs, "oof": False, "oof_kind": None, "probes": probes,
+            "features": sorted(aw.features), "tree": aw.domain_tree("dom")}
+
+
 def generated_worlds(rng, tier):
     worlds = []
     for _ in range({"quick": 60, "thorough": 600}[tier]):
         w = gen_world_t(rng, max_actions=2)
         worlds.append(build_world_b(rng, w, n_states=4, calls_per_action=4))
+    for _ in range({"quick": 20, "thorough": 200}[tier]):
+        worlds.append(build_alias_b(rng, n_states=3, calls_per_action=4))
     return worlds
 
 
